@@ -613,7 +613,9 @@ def check(tier: str) -> Report:
         "stores indexed by the loop variable (+const) at one axis position, store targets not read, nothing carried across iterations; "
         "(g) dot and outer products: the field methods, the numpy closures and the numba overloads are interpreted on arrays of distinct "
         "symbols for every rank combination, with `out` given and allocated; every route must return (an unbound closure variable or a "
-        "shape error on one route only is a violation) and all routes must return identical entries."
+        "shape error on one route only is a violation) and all routes must return identical entries; "
+        "(b) the sparse-matrix route used by the Poisson solvers: every row of every Laplace-matrix assembler equals the numba stencil with the "
+        "virtual points eliminated through get_virtual_point_data (all boundary-condition classes per side, r_min = 0 and > 0)."
     )
     ix = get_index()
     cfg = read_config_defaults(ix)
@@ -757,7 +759,11 @@ def check(tier: str) -> Report:
         raise AnalysisError(f"prange loops not reached by the kernel extraction (cannot decide schedule independence): {missing}")
     # ------------------------------------------------------------------ (g)
     binary_operator_routes(rep, ix)
-    rep.note("(b) sparse-matrix route vs stencil∘BC is decided by C18 (same extraction)")
+    # ------------------------------------------------------------------ (b) sparse-matrix route
+    from . import c18
+
+    c18.check_matrix_rows(rep, ix, rule_mismatch="C03.matrix-vs-stencil", rule_overwrite=None)
+    rep.note("(b) sparse-matrix route: rows of every _get_laplace_matrix* assembler == numba stencil with ghost cells eliminated (extraction shared with C18)")
     rep.assumptions += [
         "documented semantics of scipy.ndimage.correlate1d / laplace (boundary mode only touches the discarded outer layer)",
         "scipy Laplacian compared under uniform spacing (the factory raises otherwise)",
